@@ -121,8 +121,6 @@ class FieldType(abc.ABC):
 
     def prepend_empty(self, num_obs, memo) -> None:
         """Add num_obs empty values to the start of the field"""
-        if num_obs == 0:
-            return
         self._prepend_empty(num_obs, memo)
         self.num_obs = len(self.data)
 
@@ -132,8 +130,6 @@ class FieldType(abc.ABC):
 
     def append_empty(self, num_obs, memo) -> None:
         """Add num_obs empty values to the start of the field"""
-        if num_obs == 0:
-            return
         self._append_empty(num_obs, memo)
         self.num_obs = len(self.data)
 
